@@ -3,6 +3,7 @@ from storegen import *
 import itertools
 
 ID = "C10"
+SCHEDULE_DEPENDENT = True     # a failure that does not recur when the case is re-run is still reported (engine: report())
 THEOREM_MODULE = "SimVerif.Props.C10"
 NONTRIVIAL_FLAGS = {"iterator", "results", "errors", "multi-cand", "owned-multi", "interleaved-shards", "only-baked", "plan-workersfirst", "plan-callerfirst", "plan-order"}
 RULE = ("cases = a store with 1..4 shards filled with tracks of 0..3 observations in 1..3 classes (mixed compatibility and status through the attribute values), then `store fdist` (1..4 external candidates) and `store odist` (stored candidates) "
